@@ -109,40 +109,58 @@ WORK="$(mktemp -d /tmp/vfuzz.XXXXXX)"
 trap 'rm -rf "$WORK"' EXIT
 mkdir -p "$HERE/replays"
 TOTAL=0; viol=0; other=0
-for TARGET in $TARGETS; do
-  BIN="$HERE/fuzz/target/x86_64-unknown-linux-gnu/release/$TARGET"
-  # server_start runs a full ServerLogin::start per input (about 10 ms on the P-521 suites)
-  TRUNS="$RUNS"; [ "$TARGET" = "server_start" ] && TRUNS=$((RUNS / 6))
-  # history runs up to 40 protocol operations per input (20-60 inputs/s per process)
-  [ "$TARGET" = "history" ] && TRUNS=$((RUNS / 64))
-  pids=""
-  for i in $(seq 1 "$PROCS"); do
-    mkdir -p "$WORK/$TARGET/c$i" "$WORK/$TARGET/a$i"
-    cp "$HERE/corpus/$TARGET"/* "$WORK/$TARGET/c$i/" 2>/dev/null
-    ( "$BIN" "$WORK/$TARGET/c$i" -runs="$TRUNS" -seed=$((SEED * 100 + i)) -max_len=1024 -len_control=0 -timeout=20 \
-        -artifact_prefix="$WORK/$TARGET/a$i/" -print_final_stats=1 >"$WORK/$TARGET/log$i" 2>&1 ) &
-    pids="$pids $!"
+# campaign <dir of fuzz binaries> <vcheck binary that confirms crashes> <replay name infix> <divisor of the run count>
+campaign() {
+  local BDIR="$1" CONF="$2" INFIX="$3" DIV="$4" TARGET
+  for TARGET in $TARGETS; do
+    local BIN="$BDIR/$TARGET" W="$WORK/$INFIX$TARGET"
+    # server_start runs a full ServerLogin::start per input (about 10 ms on the P-521 suites)
+    local TRUNS="$RUNS"; [ "$TARGET" = "server_start" ] && TRUNS=$((RUNS / 6))
+    # history runs up to 40 protocol operations per input (20-60 inputs/s per process)
+    [ "$TARGET" = "history" ] && TRUNS=$((RUNS / 64))
+    TRUNS=$((TRUNS / DIV)); [ "$TRUNS" -ge 1 ] || TRUNS=1
+    local pids="" i n f crc dst
+    for i in $(seq 1 "$PROCS"); do
+      mkdir -p "$W/c$i" "$W/a$i"
+      cp "$HERE/corpus/$TARGET"/* "$W/c$i/" 2>/dev/null
+      ( "$BIN" "$W/c$i" -runs="$TRUNS" -seed=$((SEED * 100 + i)) -max_len=1024 -len_control=0 -timeout=20 \
+          -artifact_prefix="$W/a$i/" -print_final_stats=1 >"$W/log$i" 2>&1 ) &
+      pids="$pids $!"
+    done
+    wait $pids
+    for i in $(seq 1 "$PROCS"); do
+      n=$(sed -n 's/^stat::number_of_executed_units: \([0-9]*\)/\1/p' "$W/log$i" | tail -1); TOTAL=$((TOTAL + ${n:-0}))
+    done
+    for f in "$W"/a*/*; do
+      [ -f "$f" ] || continue
+      # a crash counts only if the stable binary of the profile under check reproduces it for this property
+      VERIF_FUZZ_PROPERTY=$ID "$CONF" fuzz-replay --suite "$TARGET" --replay "$f" --verif-dir "$HERE" >/dev/null 2>&1; crc=$?
+      if [ $crc -ne 1 ]; then
+        # 0: not reproduced / another property's subject; 2: harness problem - neither is a verdict
+        other=$((other + 1))
+      else
+        dst="$HERE/replays/$ID-${INFIX}fuzz-$TARGET-$(basename "$f")"; cp "$f" "$dst"
+        echo "VIOLATION property=$ID replay=$dst"; viol=$((viol + 1))
+      fi
+    done
   done
-  wait $pids
-  for i in $(seq 1 "$PROCS"); do
-    n=$(sed -n 's/^stat::number_of_executed_units: \([0-9]*\)/\1/p' "$WORK/$TARGET/log$i" | tail -1); TOTAL=$((TOTAL + ${n:-0}))
-  done
-  for f in "$WORK/$TARGET"/a*/*; do
-    [ -f "$f" ] || continue
-    # a crash counts only if it also fails, for this property, on the production profile
-    VERIF_FUZZ_PROPERTY=$ID "$VC" fuzz-replay --suite "$TARGET" --replay "$f" --verif-dir "$HERE" >/dev/null 2>&1; crc=$?
-    if [ $crc -ne 1 ]; then
-      # 0: not reproduced on the production profile / another property's subject; 2: harness problem - neither is a verdict
-      other=$((other + 1))
-    else
-      dst="$HERE/replays/$ID-fuzz-$TARGET-$(basename "$f")"; cp "$f" "$dst"
-      echo "VIOLATION property=$ID replay=$dst"; viol=$((viol + 1))
-    fi
-  done
-done
+}
+campaign "$HERE/fuzz/target/x86_64-unknown-linux-gnu/release" "$VC" "" 1
+CHK=""
+if [ "$ID" = "C12" ]; then
+  # C12 also fuzzes builds with debug assertions and overflow checks (cargo-fuzz's default, no -O): a
+  # quarter of the runs, crashes confirmed with the checked-profile vcheck (replay files C12-checked-fuzz-*)
+  if ! cargo +nightly fuzz build --fuzz-dir "$HERE/fuzz" -s none --target-dir "$HERE/fuzz/target-checked" >/tmp/vfuzz-build.$$ 2>&1; then
+    echo "INCONCLUSIVE property=$ID the fuzz targets do not build with debug assertions; last lines:"; tail -n 15 /tmp/vfuzz-build.$$; rm -f /tmp/vfuzz-build.$$
+    exit 2
+  fi
+  rm -f /tmp/vfuzz-build.$$
+  campaign "$HERE/fuzz/target-checked/x86_64-unknown-linux-gnu/release" "$VCC" "checked-" 4
+  CHK=" + the same targets built with debug assertions and overflow checks (a quarter of the runs)"
+fi
 if [ -f "$EV" ]; then
   jq --arg t "$TARGETS" --argjson e "$TOTAL" --argjson p "$PROCS" --argjson r "$RUNS" --argjson v "$viol" --argjson d "$other" \
-     '.coverage.fuzz = {engine: "libFuzzer (cargo-fuzz, nightly, -O, no sanitizer)", targets: $t, processes_per_target: $p, runs_per_process: $r, executions: $e, confirmed_violations: $v, crashes_not_reproduced_on_production_profile_or_other_property: $d} | .coverage.evaluations += $e' \
+     --arg chk "$CHK" '.coverage.fuzz = {engine: ("libFuzzer (cargo-fuzz, nightly, -O, no sanitizer)" + $chk), targets: $t, processes_per_target: $p, runs_per_process: $r, executions: $e, confirmed_violations: $v, crashes_not_reproduced_on_production_profile_or_other_property: $d} | .coverage.evaluations += $e' \
      "$EV" > "$EV.tmp" && mv "$EV.tmp" "$EV"
 fi
 echo "FUZZ targets=$TARGETS processes=$PROCS executions=$TOTAL confirmed_violations=$viol other_crashes=$other"
